@@ -38,7 +38,7 @@ func (Engine) Budget(tier, prop string) (int, int) {
 	if tier == "thorough" {
 		return 12000, 840
 	}
-	return 2400, 110
+	return 3600, 130
 }
 
 func (Engine) Describe() simcore.Description {
